@@ -24,7 +24,9 @@ EXTENDS Integers, Sequences, FiniteSets, TLC
 CONSTANTS MaxInst,      \* instances created by a history (the static one not counted)
           MaxWrappers,  \* wrapper slots
           MaxDepth,     \* steps per history
-          MaxMarks      \* kinds of steps without effect on the heap that a history may contain
+          MaxMarks,     \* kinds of steps without effect on the heap that a history may contain
+          EnableEmpty   \* BOOLEAN: wrappers without a C++ object (Cls.__new__(Cls), a Python subclass
+                        \* whose __init__ does not chain up) and __init__ called explicitly
 
 \* marks: the kinds of effect-free steps taken so far (part of the state, so that breadth-first
 \* search keeps histories containing them although they reach no new heap)
@@ -33,8 +35,10 @@ vars == <<inst, wr, hist, marks>>
 
 NoW == [ptr |-> 0, mem |-> FALSE, const |-> FALSE]
 Slots == 1..MaxWrappers
+\* ptr = 0: free slot; ptr = -1: a wrapper WITHOUT a C++ object; ptr > 0: the wrapped instance
 Live(w) == wr[w].ptr # 0
-Usable(w) == Live(w) /\ inst[wr[w].ptr].alive
+Empty(w) == wr[w].ptr = -1
+Usable(w) == wr[w].ptr > 0 /\ inst[wr[w].ptr].alive
 Free == {w \in Slots : ~Live(w)}
 NewSlot == CHOOSE w \in Free : \A v \in Free : w <= v
 
@@ -128,6 +132,39 @@ CallNonConst(w) ==
 
 RECURSIVE Parts(_, _)
 Parts(I, i) == IF I[i].child = 0 THEN {i} ELSE {i} \cup Parts(I, I[i].child)
+Destroy(I, K, root) == [i \in 1..Len(I) |->
+                         IF i \in K THEN [I[i] EXCEPT !.alive = FALSE, !.destroyed = @ + 1,
+                                                      !.killer = IF i = root THEN "owner-wrapper" ELSE "parent"]
+                         ELSE I[i]]
+
+\* a wrapper object exists but no constructor ran: every use of it (methods const and non-const,
+\* properties, operators, sequence access, passing it on) must raise an ordinary exception and change
+\* nothing -- checked by the replay as probes on every such wrapper after every step; only a static
+\* function called through it works
+NewEmpty ==
+  /\ EnableEmpty /\ Free # {}
+  /\ inst' = inst
+  /\ wr' = [wr EXCEPT ![NewSlot] = [ptr |-> -1, mem |-> FALSE, const |-> FALSE]]
+  /\ UNCHANGED marks
+  /\ Record("NewEmpty", NewSlot, 0, "")
+
+\* w.__init__() on a wrapper without object: now it is an ordinary owned instance
+InitEmpty(w) ==
+  /\ EnableEmpty /\ Empty(w) /\ CanCreate
+  /\ inst' = Append(inst, NewInstO("py", 0, "init"))
+  /\ wr' = [wr EXCEPT ![w] = [ptr |-> Len(inst) + 1, mem |-> TRUE, const |-> FALSE]]
+  /\ UNCHANGED marks
+  /\ Record("Init", w, 0, "")
+
+\* w.__init__() again on a constructed, non-const wrapper: the wrapper gets a new owned object and
+\* the object it owned before is destroyed (nothing may leak); an object it only borrowed stays
+ReInit(w) ==
+  /\ EnableEmpty /\ Usable(w) /\ ~wr[w].const /\ CanCreate
+  /\ inst' = Append(IF wr[w].mem THEN Destroy(inst, Parts(inst, wr[w].ptr), wr[w].ptr) ELSE inst,
+                    NewInstO("py", 0, "reinit"))
+  /\ wr' = [wr EXCEPT ![w] = [ptr |-> Len(inst) + 1, mem |-> TRUE, const |-> FALSE]]
+  /\ UNCHANGED marks
+  /\ Record("ReInit", w, 0, "")
 
 DropWrapper(w) ==
   /\ Live(w)
@@ -144,8 +181,9 @@ DropWrapper(w) ==
 
 Next == /\ Len(hist) < MaxDepth
         /\ \/ PyConstruct \/ ReturnStatic
+           \/ NewEmpty
            \/ \E s \in Slots : ReturnByValue(s) \/ ReturnBorrowed(s) \/ ReturnConstRef(s) \/ ReturnThis(s)
-                                \/ CallNonConst(s) \/ DropWrapper(s)
+                                \/ CallNonConst(s) \/ DropWrapper(s) \/ InitEmpty(s) \/ ReInit(s)
            \/ \E s, t \in Slots : PassToCpp(s, t)
 Spec == Init /\ [][Next]_vars
 
@@ -161,7 +199,9 @@ OnlyViaOwner == \A i \in 1..Len(inst) :
 \* never two owning wrappers for one instance (that would be a double free), and only py-owned
 \* instances have an owning wrapper
 OneOwner == \A w, v \in Slots : (Live(w) /\ Live(v) /\ wr[w].mem /\ wr[v].mem /\ wr[w].ptr = wr[v].ptr) => w = v
-OwnerIsPy == \A w \in Slots : Live(w) /\ wr[w].mem => inst[wr[w].ptr].owner = "py"
+OwnerIsPy == \A w \in Slots : Live(w) /\ wr[w].mem => (wr[w].ptr > 0 /\ inst[wr[w].ptr].owner = "py")
+\* a wrapper without object owns nothing and is not const
+EmptyOwnsNothing == \A w \in Slots : Empty(w) => ~wr[w].mem /\ ~wr[w].const
 \* a living py-owned instance still has its owning wrapper (nothing leaks)
 NoLeak == \A i \in 1..Len(inst) : inst[i].owner = "py" /\ inst[i].alive => \E w \in Slots : Live(w) /\ wr[w].mem /\ wr[w].ptr = i
 \* when every wrapper is dropped: every py-owned instance destroyed exactly once, the static one never,
